@@ -33,11 +33,11 @@ def model (i : Input) : Out := getVerifiedHeadersRangeG true true cfg Lumina.Gen
 
 def specIn (i : Input) : In :=
   { fromValid := i.fromValid, fromHeight := i.fromHeight, sameChain := i.sameChain, amount := i.amount,
-    chainLen := i.net.chainLen, allFull := i.net.beh.all (· == .full), fuel := i.fuel }
+    chainLen := i.net.chainLen, progressing := i.net.beh.all Beh.progressing, fuel := i.fuel }
 
 def obsOf : Out → Obs
-  | .ok hs _ => .ok (hs.map (·.height))
-  | .err _ _ => .err
+  | .ok hs steps => .ok (hs.map (·.height)) steps
+  | .err _ steps => .err steps
   | .panic => .panic
   | .hang => .hang
 
@@ -158,7 +158,8 @@ theorem ok_exact (i : Input) (hh : i.fromHeight < U64_MAX) (hs : List Hdr) (step
         simp [model, getVerifiedHeadersRangeG, hv, h0, h1, h2] at h
   · simp [model, getVerifiedHeadersRangeG, hv] at h
 
-theorem allFull_cyc (l : List Beh) (h : l.all (· == .full) = true) : ∀ j, cyc l j .full = .full := by
+theorem progressing_cyc (l : List Beh) (h : l.all Beh.progressing = true) :
+    ∀ j, (cyc l j .full).progressing = true := by
   intro j
   unfold cyc
   split
@@ -166,15 +167,16 @@ theorem allFull_cyc (l : List Beh) (h : l.all (· == .full) = true) : ∀ j, cyc
   · rename_i hl
     have hlt : j % l.length < l.length := Nat.mod_lt _ (by omega)
     have hmem := getD_mem l (j % l.length) .full hlt
-    have := List.all_eq_true.mp h _ hmem
-    simpa using this
+    exact List.all_eq_true.mp h _ hmem
 
 /-- **served ⇒ exactly those headers**: when `from` is a valid header of the chain the peers
-    serve, the peers hold every requested height and answer fully — in ANY order — the call
-    returns exactly the chain's headers `from+1 ..= from+amount` (within `amount` answers) -/
+    serve, the peers hold every requested height and every answer delivers at least one requested
+    header (full OR truncated answers) — in ANY order — the call returns exactly the chain's headers
+    `from+1 ..= from+amount`, within `amount` answered requests -/
 theorem served_returns_exactly (i : Input) (hserved : served (specIn i) = true)
     (hchain : i.net.chainLen ≤ U64_MAX) :
-    ∃ steps, model i = .ok ((List.range' (i.fromHeight + 1) i.amount).map chainHdr) steps := by
+    ∃ steps, steps ≤ i.amount ∧
+      model i = .ok ((List.range' (i.fromHeight + 1) i.amount).map chainHdr) steps := by
   simp only [served, specIn, Bool.and_eq_true, decide_eq_true_eq] at hserved
   obtain ⟨⟨⟨⟨⟨hv, hsame⟩, hfull⟩, hamt⟩, hcov⟩, hfuel⟩ := hserved
   have hamt := of_decide_eq_true hamt
@@ -207,10 +209,16 @@ theorem served_returns_exactly (i : Input) (hserved : served (specIn i) = true)
     rw [hresp0, Lumina.Proofs.Session.rangeLen_pos (by simp only; omega)] at this
     simp only [List.flatten_nil, List.length_nil, Nat.zero_add] at this
     omega
-  obtain ⟨s', steps, hd, hinv, hfull', htasks, hch⟩ :=
+  have hrem0 : Lumina.Proofs.Session.remaining (init cfg (i.fromHeight + 1, i.fromHeight + i.amount) : State Hdr)
+      = i.amount := by
+    have := Lumina.Proofs.Session.inv_length ht 64 _ _ hi.1
+    rw [hresp0, Lumina.Proofs.Session.rangeLen_pos (by simp only; omega)] at this
+    simp only [List.flatten_nil, List.length_nil, Nat.zero_add] at this
+    omega
+  obtain ⟨s', steps, hd, hinv, hfull', htasks, hch, hsteps⟩ :=
     drive_served i.net (i.fromHeight + 1, i.fromHeight + i.amount) hr (by simp only; omega)
-      (allFull_cyc _ hfull) i.fuel 0 _ hi.1 hi.2 hch0 hrem
-  refine ⟨steps, ?_⟩
+      (progressing_cyc _ hfull) i.fuel 0 _ hi.1 hi.2 hch0 hrem
+  refine ⟨steps, by omega, ?_⟩
   rw [model_main i hv h0 hfit, hd]
   simp only [hinv.running]
   have hnf : s'.toFetch = none := by
@@ -244,12 +252,44 @@ theorem served_returns_exactly (i : Input) (hserved : served (specIn i) = true)
     `Ok` whenever the network serves every requested header. -/
 theorem range_spec (i : Input) (hh : i.fromHeight < U64_MAX) (hchain : i.net.chainLen ≤ U64_MAX) :
     specOK (specIn i) (obsOf (model i)) = true := by
+  -- promptness of whatever is returned
+  have hprompt : ∀ steps, (∃ hs, model i = .ok hs steps) ∨ (∃ e, model i = .err e steps) →
+      prompt (specIn i) steps = true := by
+    intro steps hret
+    simp only [prompt, Bool.and_eq_true, Bool.or_eq_true, Bool.not_eq_true', beq_eq_false_iff_ne, ne_eq,
+      beq_iff_eq, decide_eq_true_eq]
+    constructor
+    · by_cases h0 : i.amount = 0
+      · right
+        by_cases hv : i.fromValid = true
+        · rw [zero_amount_prompt i hv h0] at hret
+          rcases hret with ⟨hs, he⟩ | ⟨e, he⟩
+          · injection he with _ h2; exact h2.symm
+          · cases he
+        · have : model i = .err "InvalidRequest" 0 := by simp [model, getVerifiedHeadersRangeG, hv]
+          rw [this] at hret
+          rcases hret with ⟨hs, he⟩ | ⟨e, he⟩
+          · cases he
+          · injection he with _ h2; exact h2.symm
+      · left; exact h0
+    · cases hs : served (specIn i) with
+      | false => left; rfl
+      | true =>
+        right
+        obtain ⟨steps', hle, he⟩ := served_returns_exactly i hs hchain
+        rw [he] at hret
+        rcases hret with ⟨hs', he'⟩ | ⟨e, he'⟩
+        · injection he' with _ h2
+          show steps ≤ i.amount
+          omega
+        · cases he'
   cases hm : model i with
   | panic => exact absurd hm (never_panics i hh)
   | ok hs steps =>
     have := ok_exact i hh hs steps hm
-    simp only [obsOf, specOK, specIn, Bool.and_eq_true, beq_iff_eq, Bool.or_eq_true]
-    exact this
+    have hp := hprompt steps (Or.inl ⟨hs, hm⟩)
+    simp only [obsOf, specOK, Bool.and_eq_true, beq_iff_eq, Bool.or_eq_true]
+    exact ⟨⟨this.1, this.2⟩, hp⟩
   | hang =>
     simp only [obsOf, specOK, Bool.and_eq_true, Bool.not_eq_true', beq_eq_false_iff_ne, ne_eq]
     constructor
@@ -260,14 +300,16 @@ theorem range_spec (i : Input) (hh : i.fromHeight < U64_MAX) (hchain : i.net.cha
     · cases hs : served (specIn i) with
       | false => rfl
       | true =>
-        obtain ⟨steps, he⟩ := served_returns_exactly i hs hchain
+        obtain ⟨steps, _, he⟩ := served_returns_exactly i hs hchain
         rw [he] at hm; cases hm
   | err e steps =>
-    simp only [obsOf, specOK, Bool.not_eq_true']
+    have hp := hprompt steps (Or.inr ⟨e, hm⟩)
+    simp only [obsOf, specOK, Bool.and_eq_true, Bool.not_eq_true']
+    refine ⟨?_, hp⟩
     cases hs : served (specIn i) with
     | false => rfl
     | true =>
-      obtain ⟨steps', he⟩ := served_returns_exactly i hs hchain
+      obtain ⟨steps', _, he⟩ := served_returns_exactly i hs hchain
       rw [he] at hm; cases hm
 
 /-! ### the code BEFORE the `fix:` commit violated the property twice -/
@@ -322,6 +364,13 @@ def demoIn : Input :=
 example : served (specIn demoIn) = true := by decide
 example : demoIn.fromHeight < U64_MAX ∧ demoIn.net.chainLen ≤ U64_MAX := by decide
 example : model demoIn = .ok ((List.range' 6 20).map chainHdr) 3 := by decide
+/-- truncating but progressing peers (at most 3 headers per answer, some full): still served,
+    returns the 20 headers after 9 answers -/
+def truncNet : Net := { chainLen := 100, order := [3, 0, 5], beh := [.atMost 3, .full, .atMost 1] }
+example : served (specIn { demoIn with net := truncNet }) = true := by decide
+example : ∃ steps, steps ≤ 20 ∧
+    model { demoIn with net := truncNet } = .ok ((List.range' 6 20).map chainHdr) steps :=
+  served_returns_exactly { demoIn with net := truncNet } (by decide) (by decide)
 /-- peers that only ever say NOT_FOUND: the (fixed) call keeps waiting — a `hang` outcome that the
     property does not exclude (the network does not serve) -/
 example : model { demoIn with net := { demoNet with beh := [.notFound] } } = .hang := by decide
